@@ -226,6 +226,7 @@ type pnode = {
   node : int; ms : state; phys : key list; held_i : key list; held_m : key list;
   ghost : aghost;   (* C08 history ghost (Absorb.v) *)
   parent : int; via : label;
+  div : bool;       (* an earlier edge of this path differed from the model (events or repeat request) *)
 }
 
 let classes = [| "FULL"; "EVENTS"; "REPEAT"; "HELD" |]
@@ -259,6 +260,15 @@ let check_table (t : table) (max_pairs : int) =
   let findings = Buffer.create 256 in
   let diff_found = Array.make 4 false in
   let clause_found : (string, unit) Hashtbl.t = Hashtbl.create 16 in
+  let deferred : (string, string) Hashtbl.t = Hashtbl.create 16 in
+  let state_free = [ "C01"; "C19"; "C02.justified"; "C02.silenced"; "C02.release"; "C05.foreign"; "C05.empty"; "C14.panic" ] in
+  let emit (div : bool) (name : string) (line : string) =
+    if div && not (List.mem name state_free) then begin
+      if not (Hashtbl.mem deferred name) then Hashtbl.add deferred name line
+    end else if not (Hashtbl.mem clause_found name) then begin
+      Hashtbl.add clause_found name ();
+      Buffer.add_string findings line
+    end in
   let ok_model = x_for_layout_ok t.layout in
   if t.forlayout_panic || not ok_model then begin
     (* Mapper::for_layout panics exactly on the layouts the model rejects *)
@@ -269,7 +279,7 @@ let check_table (t : table) (max_pairs : int) =
     (findings, 0, 0, 0)
   end else begin
     let visited : (string, int) Hashtbl.t = Hashtbl.create 4096 in
-    let nodes = ref (Array.make 1024 { node = 0; ms = x_init; phys = []; held_i = []; held_m = []; ghost = x_ag_init; parent = -1; via = LA }) in
+    let nodes = ref (Array.make 1024 { node = 0; ms = x_init; phys = []; held_i = []; held_m = []; ghost = x_ag_init; parent = -1; via = LA; div = false }) in
     let count = ref 0 in
     let buf = Buffer.create 256 in
     let key_of (p : pnode) =
@@ -283,6 +293,7 @@ let check_table (t : table) (max_pairs : int) =
       List.iter (fun k -> Buffer.add_string buf (string_of_int k); Buffer.add_char buf ',') (sorted_ints p.held_m);
       Buffer.add_char buf '#';
       ghost_key buf p.ghost;
+      Buffer.add_char buf (if p.div then '!' else '.');
       Buffer.contents buf in
     let push (p : pnode) : bool =
       let k = key_of p in
@@ -298,7 +309,7 @@ let check_table (t : table) (max_pairs : int) =
         incr count;
         true
       end in
-    ignore (push { node = 0; ms = x_init; phys = []; held_i = []; held_m = []; ghost = x_ag_init; parent = -1; via = LA });
+    ignore (push { node = 0; ms = x_init; phys = []; held_i = []; held_m = []; ghost = x_ag_init; parent = -1; via = LA; div = false });
     (* C08 is proved for layouts in K1 /\ K2; outside, a hit belongs to a recorded class (KNOWN_FINDINGS.txt) *)
     let in_k1 = x_K1 t.layout and in_k2 = x_K2 t.layout in
     let known8 (c : clause8) : string =
@@ -337,12 +348,10 @@ let check_table (t : table) (max_pairs : int) =
             let bad = x_check_step t.layout p.ms ms' p.phys p.held_i inp evs_i in
             List.iter (fun c ->
                 let name = clause_name c in
-                if not (Hashtbl.mem clause_found name) then begin
-                  Hashtbl.add clause_found name ();
-                  Buffer.add_string findings
-                    (Printf.sprintf "MONITOR layout=%d clause=%s history=%s observed=[%s]\n" t.id name
-                       (history !nodes !count idx (Some e.lab)) (evs_str e.evs))
-                end) bad;
+                if not (Hashtbl.mem clause_found name) then
+                  emit p.div name
+                    (Printf.sprintf "MONITOR layout=%d clause=%s history=%s observed=[%s]%s\n" t.id name
+                       (history !nodes !count idx (Some e.lab)) (evs_str e.evs) (if p.div then "_(after_an_earlier_difference_from_the_model)" else ""))) bad;
             (* C08: the history checker on the REAL outputs (fired mapping = the specification's choice) *)
             let bad8 = x_c08_check t.layout p.ms ms' p.phys p.held_i p.ghost inp evs_i in
             List.iter (fun c ->
@@ -350,22 +359,18 @@ let check_table (t : table) (max_pairs : int) =
                 (* clauses decided from the specification state alone are reported only where the real
                    step's events equal the model's, so that the hit is a statement about the real code *)
                 let about_impl = (match c with K8_held -> true | _ -> List.map ev_to evs_m = e.evs) in
-                if about_impl && not (Hashtbl.mem clause_found name) then begin
-                  Hashtbl.add clause_found name ();
-                  Buffer.add_string findings
-                    (Printf.sprintf "MONITOR layout=%d clause=%s%s history=%s observed=[%s]\n" t.id name (known8 c)
-                       (history !nodes !count idx (Some e.lab)) (evs_str e.evs))
-                end) bad8;
+                if about_impl && not (Hashtbl.mem clause_found name) then
+                  emit p.div name
+                    (Printf.sprintf "MONITOR layout=%d clause=%s%s history=%s observed=[%s]%s\n" t.id name (known8 c)
+                       (history !nodes !count idx (Some e.lab)) (evs_str e.evs) (if p.div then "_(after_an_earlier_difference_from_the_model)" else ""))) bad8;
             (* C09: the repeat request of the REAL step against the specification's expected_repeat *)
             (match inp with
              | IEv ev ->
                let exp = irep_of_model (Some (x_expected_repeat t.layout p.ms ev)) in
-               if exp <> e.rep && not (Hashtbl.mem clause_found "C09") then begin
-                 Hashtbl.add clause_found "C09" ();
-                 Buffer.add_string findings
-                   (Printf.sprintf "MONITOR layout=%d clause=C09 history=%s observed=repeat%s expected%s\n" t.id
-                      (history !nodes !count idx (Some e.lab)) (irep_str e.rep) (irep_str exp))
-               end
+               if exp <> e.rep && not (Hashtbl.mem clause_found "C09") then
+                 emit p.div "C09"
+                   (Printf.sprintf "MONITOR layout=%d clause=C09 history=%s observed=repeat%s expected%s%s\n" t.id
+                      (history !nodes !count idx (Some e.lab)) (irep_str e.rep) (irep_str exp) (if p.div then "_(after_an_earlier_difference_from_the_model)" else ""))
              | IReleaseAll -> ());
             (* model vs implementation *)
             let evs_m_i = List.map ev_to evs_m in
@@ -385,12 +390,21 @@ let check_table (t : table) (max_pairs : int) =
                        (history !nodes !count idx (Some e.lab)) (evs_str e.evs) (irep_str e.rep)
                        (evs_str evs_m_i) (irep_str rep_m_i))
                 end) ds;
+            (* beyond an edge on which the real step and the model step differ (events or repeat request) the model state may
+               no longer be the specification state of the real mapper (p.div): reports of the state-dependent clauses made
+               there are kept back and used only for clauses that no undiverged path reports (marked after_divergence) *)
             if e.dst >= 0 then
-              ignore (push { node = e.dst; ms = ms'; phys = x_phys_after p.phys inp;
+              ignore (push { div = p.div || d_events || d_repeat; node = e.dst; ms = ms'; phys = x_phys_after p.phys inp;
                              held_i = held_i'; held_m = held_m';
                              ghost = x_ag_step t.layout p.ms p.phys p.ghost inp; parent = idx; via = e.lab })
           end) t.edges.(p.node)
     done;
+    (* clauses reported only beyond a divergence: better than nothing, marked as such *)
+    Hashtbl.iter (fun name line ->
+        if not (Hashtbl.mem clause_found name) then begin
+          Hashtbl.add clause_found name ();
+          Buffer.add_string findings line
+        end) deferred;
     (* C06 on the implementation's own table: every rest node answers like node 0 *)
     let checked = ref 0 in
     Hashtbl.iter (fun n idx ->
